@@ -16,7 +16,7 @@ CONSTANTS
   MaxAnte = 3
   MaxBlocks = 100
   MaxSets = 4
-  MaxBounds = 4
+  MaxBounds = 0
   MaxLen = 32
   Defects = {}
 CHECK_DEADLOCK FALSE
